@@ -402,7 +402,7 @@ def run(rep):
     distribution(rep, "exhaustive-spellings", ex2)
     rep.add("exhaustive-spellings", evaluate(ex2))
     # random, outside every class (where the theorems speak) and inside each class
-    n = 20000 if thorough else 1500
+    n = 40000 if thorough else 1500
     main = [random_case(rng) for _ in range(n)]
     distribution(rep, "random", main)
     rep.add("random", evaluate(main))
@@ -410,7 +410,7 @@ def run(rep):
     inside = [random_case(rng, k) for k in range(5) for _ in range(nk)]
     distribution(rep, "random-inside-classes", inside)
     rep.add("random-inside-classes", evaluate(inside))
-    ncli = 1500 if thorough else 120
+    ncli = 3000 if thorough else 120
     cli = [random_case(rng) for _ in range(ncli)]
     distribution(rep, "random-cli", cli)
     rep.add("random-cli", evaluate(cli, via="cli"))
